@@ -114,7 +114,7 @@ def graph(h, caching=False, warm=False):
     laws.name = "laws"
     U = h.new("Universe", "U", vertices=Seq([V["a"], V["b"], V["c"]], "list"), laws=laws)
     h.fn("edgegraph.structure.vertex.Vertex").dict["NEIGHBOR_CACHING"] = bool(caching)
-    roots = list(V.values()) + [e1, e2, e3, U, laws, h.cls("Vertex"), h.cls("Universe")]
+    roots = list(V.values()) + [e1, e2, e3, U, laws] + [h.cls(c) for c in ("Vertex", "Universe", "BaseObject", "Link", "TwoEndedLink", "DirectedEdge", "UnDirectedEdge")] + [lawcls]
     h.settle()
     return V, (e1, e2, e3), U, laws, roots
 
@@ -162,9 +162,9 @@ def run(ctx):
         for mode in ("caching-off", "caching-cold", "caching-warm"):
             try:
                 V, E, U, L, roots = graph(h, caching=(mode != "caching-off"))
-                if mode == "caching-warm":
-                    thunk(V, E, U, L)
+                first = thunk(V, E, U, L) if mode == "caching-warm" else None
                 out = thunk(V, E, U, L)
+                again = thunk(V, E, U, L)
                 if out.kind == "return" and isinstance(out.value, (GenV, IterV)):
                     out.value = Seq(h.I.iterate(out.value), "list")
             except Unknown as u:
@@ -181,6 +181,10 @@ def run(ctx):
                     if id(c) in internal:
                         why = f"{path} is the internal container {internal[id(c)]} itself (mutating it changes the graph or later answers)"
                         break
+                if why is None and again.kind == "return" and not isinstance(again.value, (GenV, IterV)):
+                    shared = {id(c) for c, _ in exposed_containers(out.value)} & {id(c) for c, _ in exposed_containers(again.value)}
+                    if shared:
+                        why = "two successive calls hand out the same mutable container (changing the first result changes the second)"
             res.ob(why is None, sig=("out", name, mode), sample={"accessor": name, "mode": mode, "result": show(out.value) if out.kind == "return" else repr(out)})
             if why:
                 res.violation("ESCAPE", qual, f"mode={mode}", f"{name} with {mode}: {why}", replay=replay_out(name, mode))
